@@ -200,6 +200,46 @@ func execJRT(s *Sexp) string {
 				return "ok " + showJ(back)
 			}
 			return "bad-op top-level must be object or array"
+		case "merge":
+			// (jrt merge V PRIOR xDATA): decode into a target that already holds PRIOR
+			prior, err := parseJ(s.List[3])
+			if err != nil {
+				return "bad-op"
+			}
+			data, err := unhx(s.List[4].Atom)
+			if err != nil {
+				return "bad-op"
+			}
+			switch v.(type) {
+			case map[string]interface{}:
+				back, ok := prior.(map[string]interface{})
+				if !ok {
+					return "bad-op"
+				}
+				if err := p.Unmarshal(data, &back); err != nil {
+					return "err"
+				}
+				return "ok " + showJ(back)
+			case []interface{}:
+				back, ok := prior.([]interface{})
+				if !ok {
+					return "bad-op"
+				}
+				if len(back) > 0 {
+					// spare capacity behind the target, holding stale values
+					grown := make([]interface{}, len(back), 2*len(back)+2)
+					copy(grown, back)
+					for i := len(back); i < cap(grown); i++ {
+						grown[:cap(grown)][i] = "stale"
+					}
+					back = grown
+				}
+				if err := p.Unmarshal(data, &back); err != nil {
+					return "err"
+				}
+				return "ok " + showJ(back)
+			}
+			return "bad-op"
 		case "field", "skip":
 			v2, err := parseJ(s.List[3])
 			if err != nil {
@@ -305,7 +345,10 @@ func (g *Gen) jobj(depth int) *Sexp {
 		if g.r.P(25) {
 			k = nil
 		} else {
-			k = []byte(g.r.Pick("a", "b", "key", "k\"q", "é", "x y"))
+			k = []byte(g.r.Pick("a", "b", "key", "k\"q", "é", "x y", "back\\slash", "\x01", "\a\v", "\x7f", "\x00k", "tab\there", "nl\n", "\u2028", "</k>"))
+			if g.r.P(10) {
+				k = g.jsonStr() // every byte class, boundary lengths
+			}
 		}
 		if seen[string(k)] {
 			continue
@@ -331,6 +374,18 @@ func runC16(r *Runner, g *Gen, tier string) string {
 				r.Do(L(A("jrt"), A("top"), v, A(enc[3:])), true, "jrt.top")
 			}
 		case 2:
+			if g.r.P(50) {
+				// into a populated target
+				v, prior := g.jobj(d), g.jobj(d)
+				if g.r.Bool() {
+					v, prior = g.jarr(d), g.jarr(d)
+				}
+				enc := execOp(L(A("jrt"), A("enc"), v))
+				if strings.HasPrefix(enc, "ok x") {
+					r.Do(L(A("jrt"), A("merge"), v, prior, A(enc[3:])), true, "jrt.merge")
+				}
+				break
+			}
 			r.Do(L(A("jrt"), A("field"), g.jobj(d), g.jarr(d)), true, "jrt.field")
 		case 3:
 			r.Do(L(A("jrt"), A("skip"), g.jobj(d), g.jarr(d)), true, "jrt.skip")
@@ -433,6 +488,38 @@ func oracleJRT(op *Sexp, res string) []string {
 		}
 		if !jnormEq(v, back) {
 			return []string{"JSON-any value does not round-trip at top level: got " + strings.Join(f[1:], " ")}
+		}
+	case "merge":
+		back, err := parseShownJ(strings.Join(f[1:], " "))
+		prior, err2 := parseJ(op.List[3])
+		if err != nil || err2 != nil {
+			return []string{"unparsable result"}
+		}
+		switch tv := v.(type) {
+		case []interface{}:
+			// an array holds exactly the encoded elements, whatever the target held before (an array that
+			// encodes to nothing leaves the target alone)
+			want := interface{}(tv)
+			if len(tv) == 0 {
+				want = prior
+			}
+			if !jnormEq(want, back) {
+				return []string{"JSON array decoded into a populated target: got " + strings.Join(f[1:], " ")}
+			}
+		case map[string]interface{}:
+			// an object is merged by key
+			want := map[string]interface{}{}
+			if pm, ok := prior.(map[string]interface{}); ok {
+				for k, x := range pm {
+					want[k] = x
+				}
+			}
+			for k, x := range tv {
+				want[k] = x
+			}
+			if !jnormEq(want, back) {
+				return []string{"JSON object decoded into a populated target: got " + strings.Join(f[1:], " ")}
+			}
 		}
 	case "skip":
 		if f[1] != "-7" || f[2] != hxs("z") {
